@@ -146,6 +146,10 @@ def interp(items):
         k = 0
         while k < len(items) and items[k] == ("op", op):
             k += 1
+        # prefix operators bind tighter than -> / ->> : the operand must be a single postfix operand without a field access
+        if any(x in (("op", "->"), ("op", "->>")) for x in items[k:]):
+            raise SqlError("a prefix operator is followed by a field access without parentheses: it applies to the object, "
+                           "not to the value read")
         return ("un", op, k, interp(items[k:]))
     # postfix sequence
     it = items[0]
@@ -184,6 +188,8 @@ def interp(items):
             # (the translator itself parenthesises such an operand: cast_operand_needs_parens)
             if rest and rest[0] == ("op", "::"):
                 raise SqlError("a cast follows a field name without parentheses: it applies to the name, not to the value read")
+            if rest and rest[0][0] == "B":
+                raise SqlError("a subscript follows a field name without parentheses: it applies to the name, not to the value read")
         elif r0[0] == "G":
             cur = ("call", cur, [interp(x) for x in split_commas(r0[1])])
             rest = rest[1:]
